@@ -71,6 +71,31 @@ CHECK_DEADLOCK FALSE
 """)
 
 
+# whole PeerConnections observed from the network (flag derivation from the transport mode, DTLS-SRTP / SDES key
+# installation, real socket paths): G-edge over (mode, phase) plus G-sim sequences with their real history
+PC_OPS = ["Push", "Raw", "InClearRtp", "InClearRtcp", "InForged", "InValid", "Keys", "Close"]
+PC = {
+    "quick": [("pc/edges", dict(MaxLen=6), {}), ("pc/sim-len7", dict(MaxLen=7), dict(simulate=4, depth=8))],
+    "thorough": [("pc/edges", dict(MaxLen=6), {}), ("pc/sim-len9", dict(MaxLen=9), dict(simulate=60, depth=10))],
+}
+
+
+def write_pc_cfg(path, c, emit, deviations=()):
+    with open(path, "w") as f:
+        f.write(f"""SPECIFICATION Spec
+CONSTANTS
+  Modes = {{"WebRtc", "Srtp", "Rtp"}}
+  MaxLen = {c['MaxLen']}
+  Ops = {setstr(PC_OPS)}
+  Deviations = {setstr(deviations)}
+VIEW view
+INVARIANTS TypeOK
+PROPERTIES EgressOK IngressOK AllowedInside
+ACTION_CONSTRAINT {'EmitEdge' if emit else 'NoEmit'}
+CHECK_DEADLOCK FALSE
+""")
+
+
 def setstr(xs):
     return "{" + ", ".join(json.dumps(x) for x in xs) + "}"
 
@@ -93,6 +118,9 @@ CHECK_DEADLOCK FALSE
 
 def sig_of(d):
     """Structural classification of a divergence (never the property id alone)."""
+    if d.get("level") == "pc":
+        return {"sub": "gate", "mode": "pc", "transport_mode": d.get("mode"), "rule": d.get("rule"), "field": d.get("field"),
+                "sink": d.get("sink"), "kind": d.get("kind"), "keyed": d.get("keyed")}
     return {"sub": "gate", "mode": d.get("mode", "seq"), "rule": d.get("rule"), "op": d.get("origin_op") or d.get("op"), "field": d.get("field"),
             "tr": d.get("tr"), "sink": d.get("sink"),
             "required": d.get("req", {}).get(d.get("tr") or "X"),
@@ -121,7 +149,7 @@ def nshards(tier):
     return {"quick": 8, "one": 1}.get(tier, min(16, vlib.NCPU))
 
 
-def replay_file(ck, beh_path, label, tier, extra_env=None, mode="replay"):
+def replay_file(ck, beh_path, label, tier, extra_env=None, mode="replay", binary="gate"):
     """Run the behaviours (mode replay) / schedules (mode sched) through the real transports in N worker processes."""
     n = nshards(tier)
     tag = f"{label.replace('/', '_')}.{os.getpid()}"
@@ -133,17 +161,20 @@ def replay_file(ck, beh_path, label, tier, extra_env=None, mode="replay"):
         # one CPU per worker: a transport's datagrams and the sentinel then share one loopback backlog queue, so
         # arrival order = send order (the verdict does not depend on it - datagrams are attributed by content -
         # but the exact per-step expectation (EXT) and the `late` counter do)
-        return run_pinned(cpus[i % len(cpus)], "gate", [mode, beh_path, outs[i], f"{i}/{n}"], timeout=3000,
+        if binary == "gatepc":   # several threads and real timers: not pinned
+            return vlib.run_bin("gatepc", [mode, beh_path, outs[i], f"{i}/{n}"], timeout=3000, env=extra_env)
+        return run_pinned(cpus[i % len(cpus)], binary, [mode, beh_path, outs[i], f"{i}/{n}"], timeout=3000,
                           env=extra_env)
 
     with concurrent.futures.ThreadPoolExecutor(max_workers=n) as ex:
         procs = list(ex.map(one, range(n)))
     summ = {"behaviours": 0, "steps": 0, "datagrams": 0, "deliveries": 0, "diverged": 0, "late": 0, "stale": 0,
-            "unspecified": 0, "ref_agree": 0, "ref_disagree": 0, "foreign": 0}
+            "unspecified": 0, "ref_agree": 0, "ref_disagree": 0, "foreign": 0, "protected": 0, "clear": 0,
+            "inconclusive": 0, "retries": 0}
     ref_seen = set()
     for i, p in enumerate(procs):
         if p.returncode != 0:
-            raise vlib.ToolError(f"gate replayer shard {i} failed rc={p.returncode}: {p.stderr[-2000:]}")
+            raise vlib.ToolError(f"{binary} shard {i} failed rc={p.returncode}: {p.stderr[-2000:]}")
         got_summary = False
         for r in vlib.read_ndjson(outs[i]):
             if r.get("type") == "summary":
@@ -157,8 +188,8 @@ def replay_file(ck, beh_path, label, tier, extra_env=None, mode="replay"):
                         ref_seen.add(r["op"])
                         ck.drift.append({k: r.get(k) for k in ("field", "op", "expected", "observed")})
                 elif r.get("rule") == "EXT":
-                    ck.drift.append({k: r.get(k) for k in ("mode", "field", "op", "step", "expected", "observed", "req", "gen",
-                                                           "inbound") if r.get(k) is not None})
+                    ck.drift.append({k: r.get(k) for k in ("level", "mode", "field", "op", "ops", "step", "expected", "observed",
+                                                           "req", "gen", "inbound") if r.get(k) is not None})
                 else:
                     ck.divergence(sig_of(r), r)
         if not got_summary:
@@ -182,7 +213,7 @@ def nontrivial(line_obj):
 
 def run(tier):
     ck = vlib.Check(PID, tier)
-    vlib.build_harness(["gate"])
+    vlib.build_harness(["gate", "gatepc"])
     total = 0
     nontriv = set()
     exhaustive = True
@@ -258,6 +289,42 @@ def run(tier):
                         f"{summ['steps']} steps, {summ['datagrams']} datagrams classified, {summ['deliveries']} deliveries "
                         f"traced, {summ['unspecified']} schedules cut at a step whose outcome the model leaves unspecified")
         os.remove(edges)
+    # ---- whole PeerConnections (WebRtc pair through a DTLS-holding relay, SDES and plain RTP against a raw socket)
+    for label, consts, mode in PC[tier]:
+        cfg = os.path.join(vlib.SPEC, f"MC_SrtpGatePc_{tier}_{os.getpid()}.gen.cfg")
+        write_pc_cfg(cfg, consts, emit=True)
+        edges = os.path.join(ck.dir, f"pc_{label.replace('/', '_')}.{os.getpid()}.ndjson")
+        try:
+            res = vlib.tlc("MC_SrtpGatePc", os.path.basename(cfg), tags=("EDGE",), sinks={"EDGE": edges}, timeout=600,
+                           heap="2g", tag=f"MC_SrtpGatePc_{tier}", **mode)
+        finally:
+            try:
+                os.remove(cfg)
+            except OSError:
+                pass
+        vlib.tlc_ok(res, label)
+        ck.add_tlc(res, label)
+        summ = replay_file(ck, edges, label, tier, mode="run", binary="gatepc")
+        if summ["behaviours"] != res["counts"]["EDGE"]:
+            raise vlib.ToolError(f"executed {summ['behaviours']} of {res['counts']['EDGE']} connection scenarios")
+        if not mode and not res["finished"]:
+            exhaustive = False
+        total += summ["behaviours"]
+        ck.cov["evaluations"] += summ["steps"] + summ["datagrams"] + summ["deliveries"]
+        with open(edges) as f:
+            for i, line in enumerate(f):
+                o = json.loads(line)
+                if o["mode"] != "Rtp":
+                    nontriv.add(hashlib.blake2b(line.encode(), digest_size=8).digest())
+                if i % 17 == 3 and len(ck.cov["samples"]) < 13:
+                    ck.cov["samples"].append(f"connection, mode {o['mode']}: " + " ".join(o["pre"] + [o["act"]]) +
+                                             f" expects wire={o['exp'][0] or '-'} delivered={o['exp'][1]}")
+        ck.notes.append(f"{label}: {res['counts']['EDGE']} connection scenarios, {summ['steps']} steps, {summ['datagrams']} media "
+                        f"datagrams of the observed endpoint classified ({summ['protected']} protected, {summ['clear']} clear - "
+                        f"the clear ones in plain-RTP control scenarios), {summ['deliveries']} deliveries traced, "
+                        f"{summ['retries']} set-ups repeated because the connection did not come up, "
+                        f"{summ['inconclusive']} scenarios inconclusive")
+        os.remove(edges)
     ck.cov["traces_validated_against_impl"] = total
     ck.cov["distinct_nontrivial"] = len(nontriv)
     ck.cov["exhaustive"] = exhaustive
@@ -284,6 +351,14 @@ def replay(path):
     with open(path) as f:
         rec = json.load(f)
     case = rec["record"]["case"]
+    if rec["record"].get("level") == "pc":
+        vlib.build_harness(["gatepc"])
+        bp = os.path.join(ck.dir, f"replay_one.{os.getpid()}.ndjson")
+        vlib.write_ndjson(bp, [rec["record"]["case"]])
+        summ = replay_file(ck, bp, "one", "one", mode="run", binary="gatepc")
+        os.remove(bp)
+        ck.cov.update(states=1, transitions=1, traces_validated_against_impl=summ["behaviours"], samples=[rec["record"]["case"]])
+        ck.finish()
     mode = "sched" if rec["record"].get("mode") == "sched" else "replay"
     prof = {"Aes128Sha1_80": 0, "Aes128Sha1_32": 1, "AeadAes128Gcm": 2}.get(rec["record"].get("profile"))
     if prof is not None and mode == "replay":
@@ -324,6 +399,13 @@ def selftest():
         hit = any(prop in e or "AllowedInside" in e for e in res["errors"])
         print(f"selftest: racing model, deviation {dev}: violates {prop}: {hit} ({res['errors'][:1]})")
         ok = ok and hit
+    cfg = os.path.join(vlib.SPEC, f"MC_SrtpGatePc_selftest_{os.getpid()}.gen.cfg")
+    write_pc_cfg(cfg, PC["quick"][0][1], emit=False, deviations=["FlagFromMode"])
+    res = vlib.tlc("MC_SrtpGatePc", os.path.basename(cfg), timeout=300, workers=2, tag="MC_SrtpGatePc_selftest")
+    os.remove(cfg)
+    hit = any("EgressOK" in e or "IngressOK" in e or "AllowedInside" in e for e in res["errors"])
+    print(f"selftest: connection model, deviation FlagFromMode: violates a C14 action property: {hit} ({res['errors'][:1]})")
+    ok = ok and hit
     # binding side: a corrupted expectation must be reported by the replayer (the comparison is live), and the
     # uncorrupted behaviour must pass
     vlib.build_harness(["gate"])
